@@ -218,6 +218,8 @@ struct World {
     // non-triviality
     frames_written: u64,
     interesting: u64,
+    /// a panic was caught inside the real code: its mutexes are poisoned, the case ends here
+    dead: bool,
 }
 
 impl World {
@@ -245,7 +247,7 @@ impl World {
         World {
             peer_max, local_max, a, b, writer, reader, net: vec![], wakes, waker,
             pending: VecDeque::new(), arrived: VecDeque::new(), a_closed: false, b_closed: false, tag: 0,
-            frames_written: 0, interesting: 0,
+            frames_written: 0, interesting: 0, dead: false,
         }
     }
 
@@ -254,6 +256,7 @@ impl World {
     }
 
     fn getw(&mut self, sink: &mut Sink) {
+        if self.dead { return; }
         let obs = match self.a.writer(self.peer_max) {
             Ok(w) => { self.writer = Some(w); "ok".to_string() }
             Err(e) if e.kind() == std::io::ErrorKind::Unsupported => "unsupported".into(),
@@ -263,6 +266,7 @@ impl World {
     }
 
     fn getr(&mut self, sink: &mut Sink) {
+        if self.dead { return; }
         let obs = match self.b.reader() {
             Ok(r) => { self.reader = Some(r); "ok".to_string() }
             Err(e) if e.kind() == std::io::ErrorKind::Unsupported => "unsupported".into(),
@@ -272,6 +276,7 @@ impl World {
     }
 
     fn send(&mut self, sink: &mut Sink, n: u64) {
+        if self.dead { return; }
         let tag = self.tag;
         self.tag += 1;
         let op = format!("send {} {}", n, tag);
@@ -283,7 +288,7 @@ impl World {
         let data = pat(tag, n);
         sink.pending(&op);
         let obs = match catch(|| w.send_bytes(data.clone())) {
-            Err(p) => { mfail(sink, "panic:send_bytes", &p); "PANIC".to_string() }
+            Err(p) => { self.dead = true; mfail(sink, "panic:send_bytes", &p); "PANIC".to_string() }
             Ok(Ok(())) => {
                 // RFC 9221 §3: max_datagram_frame_size bounds the whole frame (type + optional length
                 // + payload); the smallest frame carrying n bytes is 1 + n.
@@ -317,6 +322,7 @@ impl World {
     }
 
     fn load(&mut self, sink: &mut Sink, remaining: u64, calls: u64) {
+        if self.dead { return; }
         let op = format!("load {} {}", remaining, calls);
         let mut buf = PktBuf::new(remaining as usize);
         let limit = if calls == 0 { remaining + 2 } else { calls };
@@ -335,6 +341,7 @@ impl World {
                 Err(p) => {
                     mfail(sink, "panic:try_load_data_into", &format!("remaining={} head={:?}: {}", room, head.as_ref().map(|h| h.len()), p));
                     end = "PANIC".into();
+                    self.dead = true;
                     break;
                 }
                 Ok(Ok(())) => {
@@ -411,6 +418,7 @@ impl World {
     }
 
     fn inject(&mut self, sink: &mut Sink, pad: u64, with_len: bool, n: u64) {
+        if self.dead { return; }
         let tag = self.tag;
         self.tag += 1;
         let data = pat(tag, n);
@@ -421,6 +429,7 @@ impl World {
     }
 
     fn deliver(&mut self, sink: &mut Sink, k: u64) {
+        if self.dead { return; }
         let op = format!("deliver {}", k);
         if k as usize >= self.net.len() {
             sink.line(&op, "nopkt");
@@ -448,7 +457,7 @@ impl World {
                     let res = catch(|| self.b.recv_frame((f, d.clone())));
                     let woke = self.wake_count() - w0;
                     let (txt, stop) = match res {
-                        Err(p) => { mfail(sink, "panic:recv_datagram", &p); ("PANIC".to_string(), true) }
+                        Err(p) => { self.dead = true; mfail(sink, "panic:recv_datagram", &p); ("PANIC".to_string(), true) }
                         Ok(Ok(())) => {
                             if wire > self.local_max {
                                 mfail(sink, "recv:oversize-accepted", &format!("DATAGRAM frame of {} bytes accepted, local max_datagram_frame_size is {}", wire, self.local_max));
@@ -492,6 +501,7 @@ impl World {
     }
 
     fn drop_pkt(&mut self, sink: &mut Sink, k: u64) {
+        if self.dead { return; }
         if k as usize >= self.net.len() {
             sink.line(&format!("drop {}", k), "nopkt");
         } else {
@@ -501,6 +511,7 @@ impl World {
     }
 
     fn read(&mut self, sink: &mut Sink) {
+        if self.dead { return; }
         let Some(r) = self.reader.as_ref() else {
             sink.line("read", "noreader");
             return;
@@ -508,7 +519,7 @@ impl World {
         sink.pending("read");
         let mut cx = Context::from_waker(&self.waker);
         let obs = match catch(|| r.poll_recv(&mut cx)) {
-            Err(p) => { mfail(sink, "panic:poll_recv", &p); "PANIC".to_string() }
+            Err(p) => { self.dead = true; mfail(sink, "panic:poll_recv", &p); "PANIC".to_string() }
             Ok(Poll::Ready(Ok(d))) => {
                 match self.arrived.pop_front() {
                     Some(x) if x == d => {}
@@ -538,6 +549,7 @@ impl World {
     }
 
     fn connerr(&mut self, sink: &mut Sink, side: &str, kind: &str) {
+        if self.dead { return; }
         let e = mk_err(kind);
         let w0 = self.wake_count();
         if side == "a" {
@@ -594,6 +606,7 @@ fn pick_remaining(rng: &mut Rng, head: Option<u64>) -> u64 {
 fn grid_row(sink: &mut Sink, limit: u64, size: u64, rems: impl Iterator<Item = u64>) {
     let mut w = World::new(sink, limit, limit);
     for rem in rems {
+        if w.dead { break; }
         if w.pending.is_empty() {
             w.send(sink, size);
         }
@@ -653,7 +666,7 @@ fn random_history(rng: &mut Rng, sink: &mut Sink) {
     // cooperative suffix: flush what is queued, deliver in order, read everything
     if rng.chance(1, 2) {
         for _ in 0..w.pending.len().min(6) { w.load(sink, 1500, 0); }
-        while !w.net.is_empty() { w.deliver(sink, 0); }
+        while !w.net.is_empty() && !w.dead { w.deliver(sink, 0); }
         for _ in 0..w.arrived.len() + 1 { w.read(sink); }
     }
     w.finish(sink);
